@@ -483,7 +483,7 @@ def run(ctx):
     idump = os.path.join(ctx.scratch, "idx")
     gdump = os.path.join(ctx.scratch, "gitsc")
     wplan = ([("q", "PackFmtWriter_q.cfg", 9), ("q3", "PackFmtWriter_q3.cfg", 9), ("dup", "PackFmtWriter_dup.cfg", 4)] if quick else
-             [("t3", "PackFmtWriter_t3.cfg", 5), ("t4", "PackFmtWriter_t4.cfg", 6), ("rows", "PackFmtWriter_rows.cfg", 30),
+             [("t3", "PackFmtWriter_t3.cfg", 5), ("t4", "PackFmtWriter_t4.cfg", 6), ("rows", "PackFmtWriter_rows.cfg", 12),
               ("q", "PackFmtWriter_q.cfg", 2), ("dup", "PackFmtWriter_dup.cfg", 1)])
     futs = {}
     for nm, static, mod in wplan:
